@@ -667,6 +667,30 @@ class Interp:
                 return -(bitops.band_const(-to_int(r) - 1, ~m)) - 1
             raise Unsupported('xor with negative constant')
         a, b = to_int(l), to_int(r)
+        # a & ~t = a - (a & t)   (valid for all integers)
+        if name == 'and':
+            for x, y in ((a, b), (b, a)):
+                t2 = not_arg(y)
+                if t2 is not None:
+                    bitops._fired('and-not')
+                    return x - to_int(self.bitop(ast.BitAnd, x, t2, line))
+        if name == 'and':
+            for x, y in ((a, b), (b, a)):
+                ys = z3.simplify(y)
+                s_ = shift_of(ys)
+                if isinstance(s_, int) and s_ > 0:
+                    for w in (1, 2, 4, 8):
+                        if self.ctx.provable(z3.And(ys >= 0, ys < 2 ** (s_ + w), ys % (2 ** s_) == 0), timeout=1000):
+                            return bitops.field_and(x, ys / (2 ** s_), s_, w)
+        # a ^ (t * 2^s) with a small t: only one field of a changes
+        if name == 'xor':
+            for x, y in ((a, b), (b, a)):
+                ys = z3.simplify(y)
+                s_ = shift_of(ys)
+                if isinstance(s_, int) and s_ > 0:
+                    for w in (1, 2, 4, 8):
+                        if self.ctx.provable(z3.And(ys >= 0, ys < 2 ** (s_ + w), ys % (2 ** s_) == 0, x >= 0), timeout=1000):
+                            return bitops.field_xor(x, ys / (2 ** s_), s_, w)
         # rule 4: disjoint bits.  one operand is X * pow2(s) (or X * 2^c), the other in [0, 2^s)
         if name in ('or', 'xor'):
             for x, y in ((a, b), (b, a)):
@@ -740,6 +764,27 @@ class FloatDiv:
 
     def __init__(self, a, b):
         self.a, self.b = a, b
+
+
+def not_arg(y):
+    """t if y is syntactically ~t = -t - 1"""
+    if not is_sym(y):
+        return None
+    ys = y
+    if z3.is_add(ys) and ys.num_args() == 2:
+        c = [ch for ch in ys.children() if z3.is_int_value(ch)]
+        o = [ch for ch in ys.children() if not z3.is_int_value(ch)]
+        if len(c) == 1 and len(o) == 1 and c[0].as_long() == -1:
+            t = o[0]
+            if z3.is_app(t) and t.decl().kind() == z3.Z3_OP_UMINUS:
+                return t.arg(0)
+            if z3.is_mul(t) and t.num_args() == 2 and z3.is_int_value(t.arg(0)) and t.arg(0).as_long() == -1:
+                return t.arg(1)
+    if z3.is_sub(ys) and ys.num_args() == 2 and z3.is_int_value(ys.arg(1)) and ys.arg(1).as_long() == 1:
+        t = ys.arg(0)
+        if z3.is_app(t) and t.decl().kind() == z3.Z3_OP_UMINUS:
+            return t.arg(0)
+    return None
 
 
 def shift_of(y):
